@@ -150,6 +150,16 @@ def faults(doc):
             d = copy.deepcopy(doc)
             d['Modules'][name]['rectangles'] = [list(first[:4]), list(first[:4])]
             yield 'hard-overlapping-rectangles', name + '.dup', d
+            # a valid orthogon (trunk + two branches on its north side) whose two branches overlap EACH OTHER
+            x, y, w, h = first[:4]
+            d = copy.deepcopy(doc)
+            d['Modules'][name]['rectangles'] = [[x, y, w, h], [x - w / 8, y + h / 2 + h / 4, w / 2, h / 2],
+                                                [x + w / 8, y + h / 2 + h / 4, w / 2, h / 2]]
+            yield 'hard-overlapping-rectangles', name + '.branches', d
+            d = copy.deepcopy(doc)
+            d['Modules'][name]['rectangles'] = [[x, y, w, h], [x + w / 2 + w / 4, y - h / 8, w / 2, h / 2],
+                                                [x + w / 2 + w / 4, y + h / 8, w / 2, h / 2]]
+            yield 'hard-overlapping-rectangles', name + '.branches-east', d
         d = copy.deepcopy(doc)
         d['Modules'][name]['colour'] = 1
         yield 'unknown-attribute', name, d
